@@ -63,17 +63,24 @@ NoHandles == [i \in 1..NHND |-> NONE]
 NewTaskL(cmd, code, regs, handles, noEvict, legacy) ==
   [cmd |-> cmd, code |-> code, pc |-> 1, regs |-> regs, st |-> "live", seq |-> 0, en |-> 0,
    streams |-> NoStreams, handles |-> handles, hosting |-> NONE, aborted |-> FALSE,
-   ls |-> <<>>, yielded |-> FALSE, noEvict |-> noEvict, hostedNow |-> FALSE, why |-> "", legacy |-> legacy,
-   script |-> FALSE]     \* script: the future is an interpreted script of the harness (it carries a drop token)
+   ls |-> <<>>, yielded |-> FALSE, noEvict |-> noEvict, inPoll |-> FALSE, why |-> "", legacy |-> legacy,
+   script |-> FALSE,     \* script: the future is an interpreted script of the harness (it carries a drop token)
+   root |-> FALSE]       \* root: the task Command::new created -- it shares the command's abort flag
 
 NewTask(cmd, code, regs, handles, noEvict) == NewTaskL(cmd, code, regs, handles, noEvict, FALSE)
 
 \* exec: TRUE for the pseudo command that stands for the core's QueuingExecutor
 \* wreg: the command's AtomicWaker holds a waker of its host (poll_next registers, a wake takes)
 \* pass: (executor only) run_all alternates a pass over the spawn queue and a pass over the ready queue
+\* armed: the abort flag has been seen by run_until_settled's entry check (it is only looked at on
+\*        entry: a flag set by one of the command's own tasks lets the current settle finish first)
 NewCmd(host) == [host |-> host, aborted |-> FALSE, alive |-> TRUE, out |-> {}, exec |-> FALSE,
-                 wreg |-> host # ROOT, pass |-> "spawn"]
+                 wreg |-> host # ROOT, pass |-> "spawn", armed |-> FALSE]
 Fifo == Sched = "fifo"
+\* a command aborted before it exists in the model (held by a combinator, not started yet)
+AbortStub == [host |-> NONE, aborted |-> TRUE, alive |-> FALSE, out |-> {}, exec |-> FALSE, wreg |-> FALSE,
+              pass |-> "spawn", armed |-> TRUE]
+
 
 \* kind: "never" | "once" | "many" ; kind0 is the kind the request was created with
 NewReqL(kind, owner, tag, val, legacy) ==
@@ -130,7 +137,7 @@ RECURSIVE Instantiate(_, _, _)
 Instantiate(c, inst, host) ==
   LET ck == <<inst, RootId(c)>>
       one(code) == [cmds  |-> (ck :> NewCmd(host)),
-                    tasks |-> (<<inst, c.tid>> :> NewTask(ck, code, ZeroRegs, NoHandles, FALSE)),
+                    tasks |-> (<<inst, c.tid>> :> [NewTask(ck, code, ZeroRegs, NoHandles, FALSE) EXCEPT !.root = TRUE]),
                     q |-> << <<inst, c.tid>> >>]
   IN CASE c.k = "done"   -> one(<<>>)
        [] c.k = "event"  -> one(<< [op |-> "emit", tag |-> c.tag, src |-> [c |-> c.val]] >>)
@@ -143,7 +150,7 @@ Instantiate(c, inst, host) ==
                             [r EXCEPT !.tasks = [k \in DOMAIN r.tasks |-> [r.tasks[k] EXCEPT !.script = TRUE]]]
        [] c.k = "all"    ->
             [cmds  |-> (ck :> NewCmd(host)),
-             tasks |-> (<<inst, c.tid>> :> NewTask(ck, <<>>, ZeroRegs, NoHandles, FALSE))
+             tasks |-> (<<inst, c.tid>> :> [NewTask(ck, <<>>, ZeroRegs, NoHandles, FALSE) EXCEPT !.root = TRUE])
                        @@ [tk \in {<<inst, c.cs[i].tid>> : i \in DOMAIN c.cs} |->
                             LET i == CHOOSE j \in DOMAIN c.cs : c.cs[j].tid = tk[2] IN
                             NewTask(ck, << HostI(c.cs[i].c, "id", "id") >>, ZeroRegs, NoHandles, FALSE)],
@@ -174,10 +181,19 @@ LiveIn(S, c) == {t \in Live(S) : S.tasks[t].cmd = c}
 \* live tasks inside command c at any depth
 SubtreeTasks(S, c) == {t \in Live(S) : c \in CmdAnc(S, S.tasks[t].cmd)}
 
+\* run_task's `task.is_aborted()`: the task's own flag (JoinHandle::abort) -- which for the root task
+\* of a command is the command's flag itself
+\* (the flag is looked at when a poll of the task starts.  The poll of a hosting task spans the polls
+\* of everything it hosts: inPoll is set when the child is started in this poll or when a task of the
+\* hosted subtree is polled, and cleared when the host's own turn (Forward) ends)
+TaskAborted(S, t) ==
+  /\ S.tasks[t].aborted \/ (S.tasks[t].root /\ S.cmds[S.tasks[t].cmd].aborted)
+  /\ ~S.tasks[t].inPoll
+
 \* task t may not be polled: something above it has been aborted and will be reaped first
 Blocked(S, t) ==
-  \/ \E c \in CmdAnc(S, S.tasks[t].cmd) : S.cmds[c].aborted
-  \/ \E h \in HostChain(S, t) : S.tasks[h].aborted
+  \/ \E c \in CmdAnc(S, S.tasks[t].cmd) : S.cmds[c].aborted /\ S.cmds[c].armed
+  \/ \E h \in HostChain(S, t) : TaskAborted(S, h)
 
 ---------------------------------------------------------------------------
 (* Waking and removing tasks *)
@@ -295,7 +311,9 @@ LeafVal(S, L, ls, i) ==
 \* new command records join the table; an abort requested before the command started sticks
 MergeCmds(n, old) ==
   [c \in DOMAIN n \cup DOMAIN old |->
-     IF c \in DOMAIN n THEN [n[c] EXCEPT !.aborted = (c \in DOMAIN old /\ old[c].aborted)] ELSE old[c]]
+     IF c \in DOMAIN n THEN [n[c] EXCEPT !.aborted = (c \in DOMAIN old /\ old[c].aborted),
+                                         !.armed = (c \in DOMAIN old /\ old[c].aborted)]
+     ELSE old[c]]
 
 \* a set of task keys as a sequence in a fixed order
 RECURSIVE SetToSortSeq(_)
@@ -343,8 +361,11 @@ ExecWait(S, t, I) ==
                         IF q.chan # <<>>
                         THEN [q EXCEPT !.chan = Tail(@),
                                        !.recvAlive = IF q.kind0 = "once" THEN FALSE ELSE @]
-                        ELSE IF q.senderAlive \/ q.legacy THEN [q EXCEPT !.reg = "latest"]
-                        ELSE q      \* closed and empty: a one-shot stays pending without a waker
+                        ELSE IF q.senderAlive \/ (q.legacy /\ q.kind0 = "once")
+                             THEN [q EXCEPT !.reg = "latest"]
+                        \* closed and empty: a one-shot stays pending without a waker; a capability-API
+                        \* stream ends (None) and leaves the waker of an earlier poll where it was
+                        ELSE q
                    ELSE S.reqs[r]]
       \* wakers parked on join handles by this poll
       newJ == {T.handles[L[i].h] : i \in {j \in DOMAIN L : polled(j) /\ L[j].k = "joinh" /\ ~rdy(j)}}
@@ -423,6 +444,13 @@ ExecInstr(S, t) ==
          adv(IF Fifo THEN [S1 EXCEPT !.sq[T.cmd] = Append(@, k)] ELSE S1)
     [] I.op = "abort" ->
          adv([S EXCEPT !.tasks[T.handles[I.h]].aborted = TRUE])
+    [] I.op = "abortc" ->
+         \* the task aborts a command through its AbortHandle (its own, an enclosing one or any other)
+         LET ck == <<t[1], I.id>> IN
+         adv([S EXCEPT !.cmds = IF ck \in DOMAIN @
+                                 THEN [@ EXCEPT ![ck].aborted = TRUE,
+                                                ![ck].armed = @ \/ ~(ck \in CmdAnc(S, T.cmd))]
+                                 ELSE (ck :> AbortStub) @@ @])
     [] I.op = "yield" ->
          IF T.yielded THEN adv([S EXCEPT !.tasks[t].yielded = FALSE])
          ELSE [S |-> Enq1([S EXCEPT !.tasks[t].yielded = TRUE], t), oc |-> "pending"]
@@ -431,7 +459,7 @@ ExecInstr(S, t) ==
              ck == <<t[1], RootId(I.cmd)>> IN
          \* the child runs inside this very poll: the host stays at the front of its queue
          [S |-> [S EXCEPT !.cmds = MergeCmds(n.cmds, @),
-                          !.tasks = n.tasks @@ [@ EXCEPT ![t].hosting = ck, ![t].hostedNow = TRUE],
+                          !.tasks = n.tasks @@ [@ EXCEPT ![t].hosting = ck, ![t].inPoll = TRUE],
                           !.ready = @ \cup DOMAIN n.tasks \cup {t},
                           !.rq = IF Fifo THEN (ck :> n.q) @@ [@ EXCEPT ![T.cmd] = <<t>> \o @] ELSE @,
                           !.sq = IF Fifo THEN (ck :> <<>>) @@ @ ELSE @],
@@ -501,10 +529,10 @@ Scheduled(S, c) ==
 
 \* run_until_settled on an aborted command (self.tasks.clear()) is due
 CanReap(S, c) ==
-  /\ S.cmds[c].alive /\ S.cmds[c].aborted
+  /\ S.cmds[c].alive /\ S.cmds[c].aborted /\ S.cmds[c].armed
   /\ LiveIn(S, c) # {}
-  /\ \A a \in CmdAnc(S, c) \ {c} : ~S.cmds[a].aborted
-  /\ LET h == S.cmds[c].host IN IF h = ROOT THEN TRUE ELSE (~Blocked(S, h) /\ ~S.tasks[h].aborted)
+  /\ \A a \in CmdAnc(S, c) \ {c} : ~(S.cmds[a].aborted /\ S.cmds[a].armed)
+  /\ LET h == S.cmds[c].host IN IF h = ROOT THEN TRUE ELSE (~Blocked(S, h) /\ ~TaskAborted(S, h))
   /\ Scheduled(S, c)
 
 (* "fifo": which step the code takes next.  Descend from the outermost command: a Command drains  *)
@@ -514,7 +542,7 @@ NoSel == [k |-> "none", c |-> NONE, t |-> NONE]
 RECURSIVE Sel(_, _)
 Sel(S, c) ==
   LET desc(t) ==
-        IF S.tasks[t].hosting # NONE /\ ~S.tasks[t].aborted
+        IF S.tasks[t].hosting # NONE /\ ~TaskAborted(S, t)
         THEN LET r == Sel(S, S.tasks[t].hosting) IN
              IF r.k = "none" THEN [k |-> "task", c |-> c, t |-> t] ELSE r
         ELSE [k |-> "task", c |-> c, t |-> t]
@@ -527,7 +555,13 @@ Sel(S, c) ==
      ELSE IF S.rq[c] # <<>> THEN desc(Head(S.rq[c]))
           ELSE IF S.sq[c] # <<>> THEN [k |-> "move", c |-> c, t |-> NONE] ELSE NoSel
 
-ReapPending(S) == \E c \in DOMAIN S.cmds : CanReap(S, c)
+\* a command aborted by one of its own tasks finishes the settle it is in; the flag bites at the next entry
+CanArm(S, c) ==
+  /\ S.cmds[c].alive /\ S.cmds[c].aborted /\ ~S.cmds[c].armed
+  /\ LiveIn(S, c) # {}
+  /\ SubtreeTasks(S, c) \cap S.ready = {}
+
+ReapPending(S) == \E c \in DOMAIN S.cmds : CanReap(S, c) \/ CanArm(S, c)
 
 Eligible(t) ==
   IF Fifo THEN ~ReapPending(St) /\ Sel(St, TopCmd(St)) = [k |-> "task", c |-> tasks[t].cmd, t |-> t]
@@ -559,22 +593,29 @@ SwitchPass ==
      /\ cmds' = [cmds EXCEPT ![r.c].pass = IF @ = "spawn" THEN "ready" ELSE "spawn"]
   /\ UNCHANGED <<tasks, ready, run, reqs, joinreg, rq, sq>>
 
+RECURSIVE StaleAll(_, _)
+StaleAll(S, hs) == IF hs = {} THEN S ELSE LET h == CHOOSE x \in hs : TRUE IN StaleAll(Stale(S, h), hs \ {h})
+
 \* run_task picks a ready task of a command that is being run
 PollBegin(t) ==
   /\ run = NONE
   /\ t \in ready /\ tasks[t].st = "live"
   /\ tasks[t].hosting = NONE
-  /\ ~tasks[t].aborted
+  /\ ~TaskAborted(St, t)
   /\ ~Blocked(St, t)
   /\ Eligible(t)
-  /\ Put(PopHead([Stale(St, t) EXCEPT !.ready = @ \ {t}], tasks[t].cmd))
+  /\ LET hs == {h \in HostChain(St, t) : ~tasks[h].inPoll}
+         S1 == StaleAll(Stale(St, t), hs)
+         S2 == [S1 EXCEPT !.tasks = [k \in DOMAIN @ |-> IF k \in hs THEN [@[k] EXCEPT !.inPoll = TRUE] ELSE @[k]],
+                          !.ready = @ \ {t}] IN
+     Put(PopHead(S2, tasks[t].cmd))
   /\ run' = t
 
 \* a task aborted through its join handle completes without being polled (run_task: is_aborted)
 ReapTask(t) ==
   /\ run = NONE
   /\ t \in ready /\ tasks[t].st = "live"
-  /\ tasks[t].aborted
+  /\ TaskAborted(St, t)
   /\ ~Blocked(St, t)
   /\ Eligible(t)
   /\ Put(Remove(St, {t}, TRUE, "aborted"))
@@ -587,6 +628,12 @@ Step ==
        [] r.oc = "host"     -> Put(r.S) /\ run' = NONE
        [] r.oc = "pending"  -> Put(EndPending(r.S, run)) /\ run' = NONE
        [] r.oc = "finished" -> Put(Remove(r.S, {run}, TRUE, "finished")) /\ run' = NONE
+
+ArmCmd(c) ==
+  /\ run = NONE
+  /\ CanArm(St, c)
+  /\ cmds' = [cmds EXCEPT ![c].armed = TRUE]
+  /\ UNCHANGED <<tasks, ready, run, reqs, joinreg, rq, sq>>
 
 \* run_until_settled on an aborted command: self.tasks.clear()
 ReapCmd(c) ==
@@ -604,7 +651,7 @@ Forward(h) ==
   /\ run = NONE
   /\ h \in ready /\ tasks[h].st = "live"
   /\ tasks[h].hosting # NONE
-  /\ ~tasks[h].aborted
+  /\ ~TaskAborted(St, h)
   /\ ~Blocked(St, h)
   /\ Eligible(h)
   /\ LET c == tasks[h].hosting
@@ -612,11 +659,11 @@ Forward(h) ==
      /\ SubtreeTasks(St, c) \cap ready = {}
      /\ ~(cmds[c].aborted /\ LiveIn(St, c) # {})
      /\ LET \* a new poll of h, unless the child was started earlier in this very poll
-            S0 == IF tasks[h].hostedNow THEN St ELSE Stale(St, h)
+            S0 == IF tasks[h].inPoll THEN St ELSE Stale(St, h)
             S1 == PopHead([S0 EXCEPT !.cmds[tasks[h].cmd].out = @ \cup {MapItem(i, I.fe, I.fv) : i \in cmds[c].out},
                                     !.cmds[c].out = {},
                                     !.cmds[c].wreg = TRUE,
-                                    !.tasks[h].hostedNow = FALSE,
+                                    !.tasks[h].inPoll = FALSE,
                                     !.ready = @ \ {h}], tasks[h].cmd)
         IN IF LiveIn(St, c) = {}
            THEN /\ Put([S1 EXCEPT !.cmds[c].alive = FALSE,
@@ -633,7 +680,7 @@ Quiescent ==
 Internal ==
   \/ \E t \in ready : PollBegin(t) \/ ReapTask(t) \/ Forward(t)
   \/ Step
-  \/ \E c \in DOMAIN cmds : ReapCmd(c)
+  \/ \E c \in DOMAIN cmds : ReapCmd(c) \/ ArmCmd(c)
   \/ MoveSpawned
   \/ SwitchPass
 
@@ -698,11 +745,10 @@ DropReq(r, al) ==
 
 \* AbortHandle::abort: sets the flag, wakes nobody.  A command that a combinator holds but has not
 \* started yet (the second operand of `then`) can already be aborted: remembered in a stub.
-AbortStub == [host |-> NONE, aborted |-> TRUE, alive |-> FALSE, out |-> {}, exec |-> FALSE, wreg |-> FALSE,
-              pass |-> "spawn"]
 AbortCmd(c) ==
   /\ run = NONE
-  /\ cmds' = IF c \in DOMAIN cmds THEN [cmds EXCEPT ![c].aborted = TRUE] ELSE (c :> AbortStub) @@ cmds
+  /\ cmds' = IF c \in DOMAIN cmds THEN [cmds EXCEPT ![c].aborted = TRUE, ![c].armed = TRUE]
+            ELSE (c :> AbortStub) @@ cmds
   /\ UNCHANGED <<tasks, ready, run, reqs, joinreg, rq, sq>>
 
 \* effects()/events() on the outermost command c: everything queued is handed over
